@@ -212,14 +212,26 @@ def run_case(case_id, tier, seed, kind, **kw):
 
 # pattern cases on grids whose step is not one main time unit: durations are given in main time units (f = step length in main units),
 # the specification stays in steps
-PATTERN_GRIDS = {'30min_h': ('30min', 'h', 0.5), '12h_d': ('12h', 'd', 0.5), 'd_h': ('d', 'h', 24.0), '15min_min': ('15min', 'min', 15.0)}
+PATTERN_GRIDS = {'30min_h': ('30min', 'h', 0.5), '12h_d': ('12h', 'd', 0.5), 'd_h': ('d', 'h', 24.0), '15min_min': ('15min', 'min', 15.0),
+                 # durations that are NOT a multiple of the step are rounded up (documented): k steps are given as k - 0.4 steps
+                 'h_rounded_up': ('h', 'h', 'ceil'), '30min_rounded_up': ('30min', 'h', 'ceil_half')}
+
+
+def _dur_fn(f):
+    """k steps -> the duration in main time units handed to the asset"""
+    if f == 'ceil':
+        return lambda k: (k - 0.4) if k > 0 else 0
+    if f == 'ceil_half':
+        return lambda k: (k - 0.4) * 0.5 if k > 0 else 0
+    return lambda k: k * f
 
 
 def run_pattern(rec, seed, T, mr, md, tar, tao, heat, start_costs, pgrid=None):
     freq, unit, f = PATTERN_GRIDS[pgrid] if pgrid else ('h', 'h', 1)
+    dur = _dur_fn(f)
 
     def build(D):
-        pl, tg, prices, nds = build_plant(D, T, heat, False, mr * f, md * f, tar * f, tao * f, start_costs=start_costs, freq=freq, unit=unit)
+        pl, tg, prices, nds = build_plant(D, T, heat, False, dur(mr), dur(md), dur(tar), dur(tao), start_costs=start_costs, freq=freq, unit=unit)
         return pl, pl.setup_optim_problem(prices, tg)
     res = lift.explore_build(build, level='A')
     rec.paths = len(res)
@@ -482,7 +494,8 @@ def observe(case, kwargs, env, rq):
     kind = kw.pop('kind')
     if kind == 'pattern':
         freq_, unit_, f_ = PATTERN_GRIDS[kw['pgrid']] if kw.get('pgrid') else ('h', 'h', 1)
-        pl, tg, prices, nds = build_plant(D, kw['T'], kw['heat'], False, kw['mr'] * f_, kw['md'] * f_, kw['tar'] * f_, kw['tao'] * f_,
+        dur_ = _dur_fn(f_)
+        pl, tg, prices, nds = build_plant(D, kw['T'], kw['heat'], False, dur_(kw['mr']), dur_(kw['md']), dur_(kw['tar']), dur_(kw['tao']),
                                           start_costs=kw['start_costs'], freq=freq_, unit=unit_)
         op = pl.setup_optim_problem(prices, tg)
         o = dict(problem=obs.problem_obs(op))
